@@ -33,7 +33,7 @@ def records(rnd, maxn=40):
     out = []
     for _ in range(n):
         x = rnd.random()
-        if x < 0.10: out.append(rnd.choice([1, 'x', None, True, [1, 2], [{'a': 1}], 2.5, -1, -2.5, -17, 0, '', False, -0.5e-3, 1e21]))      # top-level scalars of every first byte
+        if x < 0.10: out.append(rnd.choice([1, 'x', None, True, [1, 2], [{'a': 1}], 2.5, -1, -2.5, -17, 0, '', False, -0.5e-3, 1e21, 'C:\\', 'end\\"', '{"x"', '\\\\"']))      # top-level scalars of every first byte
         elif x < 0.25 and out: out.append(rnd.choice(out))     # exact repeat
         elif x < 0.33 and out:
             # the same value spelled with its members in another order (equal under =, different as text)
